@@ -438,6 +438,8 @@ class C14(Prop):
                     "pseed": rng.randrange(10 ** 9), "gen": ["mask:" + mask["kind"]],
                     "layout": rng.choice(["C", "C", "C", "F", "strided", "transposed" if ndim == 2 else "perm", "strided0"]),
                     "layout_perm": rng.sample(range(ndim), ndim), "mask_layout": rng.choice(["C", "C", "F"])}
+        if rng.random() < 0.3:
+            return self.gen_prob_separated(rng)
         b = rng.choice([1, 2, 2, 3, 3, 4, 5])
         shape = [rng.randint(max(2, b), 16), rng.randint(max(2, b), 16)]
         if rng.random() < 0.4:
@@ -579,6 +581,26 @@ class C14(Prop):
         return {"kind": "history", "shape": shape, "x": xs if not use_prob else x2, "y": y2 if rng.random() < 0.5 else xs, "masks": masks,
                 "steps": steps}
 
+    def gen_prob_separated(self, rng, b=None, shape=None, n=None, pseed=None, kind=None):
+        """pearsonr_probablity where p is determined exactly: the two images agree (up to a positive affine map / small noise) on the
+        mask, so r is 1 or close to it; the mask is a rectangle that cuts the blocks on every side and partly masked blocks are
+        shuffled, so every round carries pixels from outside the mask - which lie on a very different level (+-1000 x) - into it:
+        each r_i (over the pixels of the mask) is far below r"""
+        b = b or rng.choice([2, 2, 3, 3, 4])
+        shape = shape or [b * rng.randint(2, 4) + rng.choice([0, 0, 1]), b * rng.randint(2, 4) + rng.choice([0, 0, 1])]
+        m = np.zeros(shape, dtype=int)
+        m[tuple(slice(rng.randint(1, b - 1), sz - rng.randint(1, b - 1)) for sz in shape)] = 1
+        N = shape[0] * shape[1]
+        x = list(range(64, 64 + N))
+        rng.shuffle(x)
+        kind = kind or rng.choice(["equal", "equal", "affine", "noise"])
+        sign = [rng.choice([1, -1]) for _ in range(N)]
+        y = [(v if kind == "equal" else 2 * v + 5 if kind == "affine" else v + rng.randint(-1, 1)) if mk else sg * 1000 * v
+             for v, mk, sg in zip(x, m.ravel(), sign)]
+        return {"kind": "prob", "shape": shape, "x": x, "y": y, "den": 1, "mask": [int(v) for v in m.ravel()], "block": b, "defaults": False,
+                "partial": True, "n": n or rng.choice([3, 4, 5, 6]), "perm": "random", "pseed": rng.randrange(10 ** 9) if pseed is None else pseed,
+                "gen": ["separated:" + kind, "mask:cut"], "layout": "C", "mask_layout": "C"}
+
     def gen_xpow(self, rng):
         kind = rng.choice(["same", "same", "same", "opposite", "one", "mixed", "mixed", "beyond"])
         k = rng.choice(XS_K)
@@ -718,6 +740,11 @@ class C14(Prop):
                    "masks": {"A": [1] * 100, "B": [1] * 100}, "steps": [pr, dict(pr, edit={"rect": [[0, 10], [0, 5]], "value": 0}, pseed=65)]}
             yield {"kind": "history", "shape": [10, 10], "x": [(7 * i * i) % 23 for i in range(100)], "y": list(range(100)),
                    "masks": {"A": [1] * 100, "B": [1] * 100}, "steps": [dict(sh, edit=None), dict(pr, edit={"rect": [[4, 10], [0, 10]], "value": 0})]}
+
+        # p determined exactly: r = 1 on the mask, partly masked blocks shuffled, out-of-mask pixels at +-1000 x
+        for i, (b, shape, kind) in enumerate(((3, [6, 9], "equal"), (2, [8, 8], "affine"), (3, [10, 10], "equal"), (4, [9, 12], "noise"),
+                                              (2, [6, 7], "equal"), (3, [9, 9], "affine"))):
+            yield self.gen_prob_separated(random.Random(1400 + i), b=b, shape=shape, n=6, pseed=70 + i, kind=kind)
 
     # ------------------------------------------------------------------ evaluation
     def evaluate(self, case, ctx):
@@ -1212,7 +1239,7 @@ class C14(Prop):
         r = r_exact(cov, vx, vy)
         tol = r_tol(g("mean_xy"), g("mean_x"), g("mean_y"), vx, vy)
         bound = float(np.abs(x0).max() * np.abs(y0).max())
-        sure = near = 0
+        sure = near = below = 0
         for st in rep["steps"] if sig_ok else []:
             vyi, ci = unrat(st["var_y"]), unrat(st["cov"])
             if st["same"]:  # identical operands: r_i is r bit for bit, never counted by rs > r
@@ -1226,6 +1253,8 @@ class C14(Prop):
                 near += 1
             elif st["gt"]:
                 sure += 1
+            else:
+                below += 1  # exactly decided (Lean rGt) and separated from r by more than the float tolerance: r_i < r
         same_idx = sig_ok and all(c[0] == rep["idx"] for c in rec.calls)
         # the property fixes r, "a fraction in [0, 1]" of the n shuffles and the untouched arguments; which side of r is
         # counted is the mechanism's choice (rs > r) and is compared with the model only
@@ -1250,6 +1279,16 @@ class C14(Prop):
         if ok:
             k = impl["p"] * n
             ok = abs(impl["r"] - r) <= tol and 0.0 <= impl["p"] <= 1.0 and abs(k - round(k)) < 1e-9
+        if ok and same_idx:
+            # "obtained over the same pixels as the reported r": the n coefficients r_i of the rounds, each over the pixels of the
+            # mask given (exact, Lean: probStepsOf on the recorded permutations - which the inner shuffles are checked to have
+            # applied), compared with r.  p * n must be the number of rounds on ONE side of r: above (what the code counts) or
+            # below (what its docstring says) - the text does not choose; rounds within the float tolerance of r may count or not
+            spec["p_count_in(rounds above r | rounds below r)"] = [[sure, sure + near], [below, below + near]]
+            impl["p_count"] = int(round(impl["p"] * n))
+            ok = ok and (sure <= impl["p_count"] <= sure + near or below <= impl["p_count"] <= below + near)
+            if not near and sure != below:
+                feats.add("prob:p-determined-exactly")
         spec_ok = ok and inner["spec_ok"]
         model_ok = (ok and sig_ok and same_idx and sure <= round(impl["p"] * n) <= sure + near and inner["model_ok"]
                     and model["images_unchanged"] and model["mask_unchanged"] and not model["p_is_nan"])
